@@ -331,6 +331,23 @@ def ipfix_sets_many0_complete(prog, an, bodies):
                         tgt = prog.body(clo[1].path)
                     if tgt is not None and any(cc is not None and cc.local and cc.path.startswith("variable_versions::ipfix::FlowSet::parse") for _, _, cc in tgt.calls()):
                         return True, "sets parsed by many0(complete(..FlowSet::parse..)) in %s" % p
+    # the same repetition written as a loop: every iteration applies FlowSet::parse to the cursor; the loop finishes
+    # with Ok (keeping the sets decoded so far) when the set fails to decode, and otherwise only on empty input or
+    # when nothing was consumed - nothing else (content, counters) ends it
+    from . import loopexit
+    target = "variable_versions::ipfix::FlowSet::parse"
+    for p, b in sorted(bodies.items()):
+        if b.derived or p.startswith(target) or "parse_le" in p:
+            continue
+        ds = [blk for blk, t, c in b.calls() if c is not None and c.local and c.path == target]
+        for d in ds:
+            if not any(d in comp for comp in b.sccs()):
+                continue
+            edges = loopexit.finishing_edges(an, b, d)
+            kinds = set(k for (_, _, k, _) in edges)
+            if "result-err" in kinds and kinds <= {"result-err", "empty", "zero-progress", "len-vs-len", "iter-exhausted"}:
+                return True, "sets parsed by a loop around FlowSet::parse in %s that keeps the earlier sets when a set fails to decode (ways to finish: %s) - the explicit form of many0(complete(..))" % (p, sorted(kinds))
+            return False, "the loop around FlowSet::parse in %s can finish under %s - not the behaviour of many0(complete(..))" % (p, sorted(kinds))
     return False, "many0(complete(..FlowSet::parse..)) not found on the parse path"
 
 
